@@ -91,6 +91,59 @@ fn judge_lens(rep: &mut Rep, data: &[u8], cuts: [usize; 4], salt: &[u8; 16], key
     }
 }
 
+/// Structured relatives of a byte string: values a partial fingerprint (a fold, a prefix, a suffix, a sum, a permutation-
+/// invariant digest) would confuse with the original. `t` selects the transformation.
+pub fn relative(v: &[u8], t: usize, rng: &mut Rng) -> (Vec<u8>, &'static str) {
+    let n = v.len();
+    let h = n / 2;
+    let mut o = v.to_vec();
+    let name = match t % 12 {
+        0 => { o.rotate_left(h); "halves_swapped" }
+        1 => { let x = rng.bytes(h); for i in 0..h { o[i] ^= x[i]; o[i + h] ^= x[i]; } "same_xor_on_both_halves" }
+        2 => { o.reverse(); "reversed" }
+        3 => { let k = 1 + rng.below(n as u64 - 1) as usize; o.rotate_left(k); "rotated" }
+        4 => { let i = rng.below(n as u64) as usize; let j = (i + 1 + rng.below(n as u64 - 1) as usize) % n; o.swap(i, j); "two_bytes_swapped" }
+        5 => { let q = n / 4; o.rotate_left(q); "quarters_rotated" }
+        6 => { let x = rng.bytes(4); for i in 0..n / 4 { if i < 2 { for k in 0..4 { o[4 * i + k] ^= x[k]; } } } "same_xor_on_two_words" }
+        7 => { let i = rng.below(n as u64) as usize; let j = (i + 1 + rng.below(n as u64 - 1) as usize) % n; let d = 1 + rng.below(255) as u8; o[i] = o[i].wrapping_add(d); o[j] = o[j].wrapping_sub(d); "same_byte_sum" }
+        8 => { let x = rng.bytes(n - 8); for i in 8..n { o[i] ^= x[i - 8] | 1; } "same_first_8_bytes" }
+        9 => { let x = rng.bytes(n - 8); for i in 0..n - 8 { o[i] ^= x[i] | 1; } "same_last_8_bytes" }
+        10 => { let x = rng.bytes(n); for i in 4..n - 4 { o[i] ^= x[i] | 1; } "same_first_and_last_4_bytes" }
+        _ => { for b in o.iter_mut() { *b = !*b; } "complemented" }
+    };
+    (o, name)
+}
+
+/// Consecutive calls on one thread whose salts (or keys) are structured relatives of each other: the second answer must
+/// not depend on the first call (no memo of a keyed state identified by a partial fingerprint).
+fn judge_history(rep: &mut Rep, data: &[u8], salts: &[[u8; 16]], keys: &[[u8; 32]], which: usize, class: &str) {
+    let replay = || {
+        format!("hist {} {} {} {}", which, hex(data), salts.iter().map(|s| hex(s)).collect::<Vec<_>>().join(","), keys.iter().map(|s| hex(s)).collect::<Vec<_>>().join(","))
+    };
+    let cut = data.len() / 3;
+    for (i, (salt, key)) in salts.iter().zip(keys.iter()).enumerate() {
+        let want = model(&[data], salt, key);
+        rep.ev(1);
+        let r = match (which + i) % 3 {
+            0 => guard(|| login_integrity_check_windows(&data[..cut], &[], &data[cut..], &[], &[], salt, key)),
+            1 => guard(|| login_integrity_check_mac(&data[..cut], &data[cut..], &[], &[], &[], salt, key)),
+            _ => guard(|| login_integrity_check_generic(data, salt, key)),
+        };
+        match r {
+            Err(e) => rep.violation("c17:panic:history", format!("call {} of a sequence panicked: {}", i, e), replay()),
+            Ok(h) => {
+                if h != want {
+                    rep.violation(
+                        &format!("c17:depends_on_call_history:{}", class),
+                        format!("call {} of a sequence of calls on one thread (salt {}, key {}) gives {}, SHA1(key|HMAC(salt, files)) gives {}; the call before used salt {} key {}", i, hex(salt), hex(key), hex(&h), hex(&want), if i > 0 { hex(&salts[i - 1]) } else { "-".into() }, if i > 0 { hex(&keys[i - 1]) } else { "-".into() }),
+                        replay(),
+                    );
+                }
+            }
+        }
+    }
+}
+
 /// Very large inputs (the data is regenerated from `dseed` on replay instead of being written into the replay line).
 fn judge_big(rep: &mut Rep, len: usize, dseed: u64, class: &str) {
     let mut rng = Rng::new(dseed, 0xb16);
@@ -137,11 +190,15 @@ pub const BIG_QUICK: [usize; 16] = [
 ];
 pub const BIG_THOROUGH: [usize; 6] = [(1 << 28) + 1, (1 << 29) + 3, (1 << 30) + 5, (1 << 31) + 7, (1usize << 32) + 9, (1 << 31) - 1];
 
+fn t_code(name: &str) -> usize {
+    name.bytes().fold(0usize, |a, b| a.wrapping_mul(31).wrapping_add(b as usize)) % 100000
+}
+
 pub fn run(tier: &str, seed: u64) -> Rep {
     let mut total = Rep::new();
     total.rule = "Windows, Mac and single-buffer integrity functions against SHA1(key | hand-built HMAC-SHA1(salt, concatenated files)): for \
 byte strings of length 0..L all C(L+4,4) distributions over the five file arguments (including empty files), lengths around SHA-1 block \
-boundaries, up to 1 MiB and around powers of two from 2 MiB to 128 MiB (thorough: to 4 GiB + 9) with random cut points, every single-bit change of salt, key and short files changes the result; reconnect \
+boundaries, up to 1 MiB and around powers of two from 2 MiB to 128 MiB (thorough: to 4 GiB + 9) with random cut points, every single-bit change of salt, key and short files changes the result; sequences of consecutive calls on one thread whose salts or keys are structured relatives (halves swapped, same XOR on both halves, reversed, rotated, same byte sum, same prefix / suffix, ...) each judged against the model; reconnect \
 check against SHA1(salt | 20 zero bytes). distinct = distinct (length, distribution) pairs + bit positions flipped"
         .to_string();
     let max_l: usize = match tier {
@@ -376,6 +433,46 @@ check against SHA1(salt | 20 zero bytes). distinct = distinct (length, distribut
                 judge_big(&mut rep, BIG_THOROUGH[sh], rng.next(), "above_256MiB");
             }
         }
+        // consecutive calls with related salts / keys on this thread
+        {
+            let rounds = if n_sizes < 10 { 3 } else if big > 4 { 6000 } else { 1500 };
+            let mut m = 0u64;
+            for i in 0..rounds {
+                let len = [0usize, 1, 20, 64, 100, 300][i % 6];
+                let data = rng.bytes(len);
+                let s0: [u8; 16] = rng.arr();
+                let k0: [u8; 32] = rng.arr();
+                let mut salts = vec![s0];
+                let mut keys = vec![k0];
+                let mut names = Vec::new();
+                let steps = 1 + (i % 3);
+                for st in 0..steps {
+                    let t = i / 2 + st * 5;
+                    if i % 2 == 0 {
+                        let (v, nm) = relative(salts.last().unwrap(), t, &mut rng);
+                        salts.push(v.try_into().unwrap());
+                        keys.push(k0);
+                        names.push(nm);
+                    } else {
+                        let (v, nm) = relative(keys.last().unwrap(), t, &mut rng);
+                        keys.push(v.try_into().unwrap());
+                        salts.push(s0);
+                        names.push(nm);
+                    }
+                }
+                // and back to the first pair: an evicted / overwritten entry must not come back wrong
+                salts.push(s0);
+                keys.push(k0);
+                let class = if i % 2 == 0 { "related_salts" } else { "related_keys" };
+                judge_history(&mut rep, &data, &salts, &keys, i, class);
+                for nm in names {
+                    rep.hist(&format!("history_{}", class), nm, 1);
+                    rep.cell(&[4100, (i % 2) as u64, (t_code(nm)) as u64, (i % 3) as u64, len as u64]);
+                }
+                m += salts.len() as u64;
+            }
+            rep.count("history_calls_with_related_salts_or_keys", m);
+        }
         // reconnect variant
         for _ in 0..(if n_sizes < 10 { 5 } else { 200 }) {
             let salt: [u8; 16] = rng.arr();
@@ -415,6 +512,12 @@ pub fn replay(args: &[String]) -> Rep {
         judge_lens(&mut rep, &data, [c0, c1, c2, c3], &rng.arr(), &rng.arr(), "replay");
     } else if args.len() >= 4 && args[0] == "big" {
         judge_big(&mut rep, args[1].parse().unwrap_or(0), args[2].parse().unwrap_or(0), "replay");
+    } else if args.len() >= 5 && args[0] == "hist" {
+        let which: usize = args[1].parse().unwrap_or(0);
+        let data = unhex(&args[2]);
+        let salts: Vec<[u8; 16]> = args[3].split(',').map(|x| unhex(x).try_into().unwrap_or([0; 16])).collect();
+        let keys: Vec<[u8; 32]> = args[4].split(',').map(|x| unhex(x).try_into().unwrap_or([0; 32])).collect();
+        judge_history(&mut rep, &data, &salts, &keys, which, "replay");
     } else if args.len() >= 2 && args[0] == "reconnect" {
         let salt: [u8; 16] = unhex(&args[1]).try_into().unwrap_or([0; 16]);
         rep.ev(1);
